@@ -319,10 +319,91 @@ class Program:
                 for t in s.targets:
                     if isinstance(t, ast.Name):
                         c.class_attrs[t.id] = s.value
+                        made = self._factory_method(m, t.id, s.value)
+                        if made is not None and t.id not in c.methods:
+                            # NAME = _factory('NAME'): the method the
+                            # factory builds, with its arguments filled in
+                            c.methods[t.id] = self._make_func(
+                                m, made, c, None, qn)
             elif isinstance(s, ast.AnnAssign) and s.value is not None and \
                     isinstance(s.target, ast.Name):
                 c.class_attrs[s.target.id] = s.value
         return c
+
+    @staticmethod
+    def _factory_method(m: Module, name: str, value):
+        """The FunctionDef a class-body `name = factory(<literals>)` stands
+        for, when `factory` is a module-level function of the same module
+        whose body is one nested def, optional `inner.__name__ = ...` /
+        `inner.__doc__ = ...` and `return inner`: a copy of the nested def
+        named `name`, the factory's parameters replaced by the literals and
+        getattr(x, 'lit') read as x.lit.  None otherwise."""
+        import copy
+        if not (isinstance(value, ast.Call) and
+                isinstance(value.func, ast.Name) and not value.keywords and
+                value.args and all(isinstance(a, ast.Constant)
+                                   for a in value.args)):
+            return None
+        fdefs = [st for st in m.tree.body
+                 if isinstance(st, ast.FunctionDef) and
+                 st.name == value.func.id]
+        if len(fdefs) != 1:
+            return None
+        fd = fdefs[0]
+        fa = fd.args
+        if fa.vararg or fa.kwarg or fa.kwonlyargs or fa.posonlyargs or \
+                len(fa.args) != len(value.args) or fd.decorator_list:
+            return None
+        body = [st for st in fd.body
+                if not (isinstance(st, ast.Expr) and
+                        isinstance(st.value, ast.Constant))]
+        inner = [st for st in body if isinstance(st, ast.FunctionDef)]
+        if len(inner) != 1 or not body or \
+                not isinstance(body[-1], ast.Return) or \
+                not isinstance(body[-1].value, ast.Name) or \
+                body[-1].value.id != inner[0].name:
+            return None
+        for st in body[:-1]:
+            if st is inner[0]:
+                continue
+            if not (isinstance(st, ast.Assign) and len(st.targets) == 1 and
+                    isinstance(st.targets[0], ast.Attribute) and
+                    isinstance(st.targets[0].value, ast.Name) and
+                    st.targets[0].value.id == inner[0].name and
+                    st.targets[0].attr in ('__name__', '__doc__',
+                                           '__qualname__')):
+                return None
+        subst = {a.arg: v for a, v in zip(fa.args, value.args)}
+        if any(isinstance(x, ast.Name) and x.id in subst and
+               isinstance(x.ctx, (ast.Store, ast.Del))
+               for x in ast.walk(inner[0])) or \
+                any(a.arg in subst for a in inner[0].args.args +
+                    inner[0].args.kwonlyargs):
+            return None
+
+        class _Fill(ast.NodeTransformer):
+            def visit_Name(self, node):
+                if isinstance(node.ctx, ast.Load) and node.id in subst:
+                    return ast.copy_location(
+                        copy.deepcopy(subst[node.id]), node)
+                return node
+
+            def visit_Call(self, node):
+                self.generic_visit(node)
+                if isinstance(node.func, ast.Name) and \
+                        node.func.id == 'getattr' and len(node.args) == 2 \
+                        and not node.keywords and \
+                        isinstance(node.args[1], ast.Constant) and \
+                        isinstance(node.args[1].value, str) and \
+                        node.args[1].value.isidentifier():
+                    return ast.copy_location(ast.Attribute(
+                        value=node.args[0], attr=node.args[1].value,
+                        ctx=ast.Load()), node)
+                return node
+        new = _Fill().visit(copy.deepcopy(inner[0]))
+        new.name = name
+        ast.fix_missing_locations(new)
+        return new
 
     def _make_func(self, m: Module, node, cls, parent, prefix: str):
         qn = prefix + '.' + node.name
